@@ -65,6 +65,8 @@ USER_PIPE = {
         {"id": "nest", "type": "nest", "items": [{"id": "sfx", "type": "field_name_suffix", "suffix": "_n", "field_name_conditions": [{"type": "include_fields", "fields": ["g1"]}]}]},
         {"id": "after", "type": "field_name_prefix", "prefix": "p.", "rule_conditions": [{"type": "processing_item_applied", "processing_item_id": "cond"}],
          "field_name_conditions": [{"type": "include_fields", "fields": ["src"]}]},
+        # not idempotent: a detection object of the added condition that survives from an earlier rule grows with every rule
+        {"id": "rep", "type": "replace_string", "regex": "log$", "replacement": "loglog"},
         {"id": "rf", "type": "rule_failure", "message": "unsupported", "rule_conditions": [{"type": "tag", "tag": "attack.t1234"}]},
     ],
 }
